@@ -26,6 +26,44 @@ def prove_range(arr, lo, hi):
     return r == "unsat"
 
 
+def content_key(arr):
+    """A name for the *content* of a lazy array: hash of its element term at canonical index variables, so that two
+    arrays built by the same computation get the same opaque operator results (functions of equal inputs are equal)."""
+    import hashlib
+    idx = [SNum(z3.Int("canon_idx%d" % a)) for a in range(len(arr.shape))]
+    c = ctx()
+    n0 = len(c.trace)
+    v = larray._to_num(arr.at(idx))
+    del c.trace[n0:]          # evaluation at the canonical index must not leave axioms behind
+    t = z3.simplify(core.zreal(v))
+    canon_s = canon(t)
+    shp = ",".join(str(z3.simplify(zterm(s))) if core.is_sym(s) else str(int(s)) for s in arr.shape)
+    return hashlib.sha256((canon_s + "|" + shp).encode()).hexdigest()[:12]
+
+
+_AC = None
+
+
+def canon(e, memo=None):
+    """canonical string of a term: arguments of commutative operators are sorted (z3's simplifier orders them by
+    internal ids, which differ between two constructions of the same term)"""
+    if memo is None:
+        memo = {}
+    i = e.get_id()
+    if i in memo:
+        return memo[i]
+    if not z3.is_app(e) or e.num_args() == 0:
+        r = e.sexpr()
+    else:
+        k = e.decl().kind()
+        ch = [canon(c, memo) for c in e.children()]
+        if k in (z3.Z3_OP_AND, z3.Z3_OP_OR, z3.Z3_OP_ADD, z3.Z3_OP_MUL, z3.Z3_OP_EQ, z3.Z3_OP_DISTINCT):
+            ch = sorted(ch)
+        r = "(" + e.decl().name() + " " + " ".join(ch) + ")"
+    memo[i] = r
+    return r
+
+
 class FiltersStub(types.ModuleType):
     def __init__(self):
         super().__init__("skimage.filters")
@@ -42,7 +80,7 @@ class FiltersStub(types.ModuleType):
             return skimage.filters.gaussian(npx._demote(image) if isinstance(image, _np.ndarray) else image, sigma=sigma, **kw)
         # contract: a normalised non-negative kernel -> every output value lies within the range of the input
         rng = (0, 1) if prove_range(image, 0, 1) else None
-        out = larray.uf_array("gauss_v%d" % image.version, image.shape, "float64", rng=rng)
+        out = larray.uf_array("gauss_s%s_%s" % (str(sigma).replace(".", "p"), content_key(image)), image.shape, "float64", rng=rng)
         out.opaque = ("gaussian", image.version, sigma, tuple(sorted(kw.items())))
         return out
 
@@ -51,9 +89,136 @@ FILTERS = FiltersStub()
 
 
 def substitute(short, g):
-    import skimage.filters
+    import skimage.filters, numpy.fft
     subs = []
     for name, val in list(g.items()):
         if val is skimage.filters:
             g[name] = FILTERS; subs.append(name)
+        elif val is numpy.fft:
+            g[name] = FFT; subs.append(name)
     return subs
+
+
+# ---------------------------------------------------------------------------------------------
+# FFT as an opaque linear operator; fftshift/ifftshift are exact index maps
+
+
+class SpecArray(LArray):
+    """FFT(src) (optionally multiplied by a real gain array): element = fft_uf(idx) * gain(idx)."""
+
+    def __init__(self, src, gain=None, kind="fftn"):
+        self.src, self.gain, self.kind = src, gain, kind
+        nd = len(src.shape)
+        f = z3.Function("%s_of_v%d" % (kind, src.version), *([z3.IntSort()] * nd + [z3.RealSort()]))
+
+        def fn(idx, f=f):
+            t = SNum(f(*[zterm(i) if core.is_sym(i) else z3.IntVal(int(i)) for i in idx]))
+            return t * self.gain.at(idx) if self.gain is not None else t
+        LArray.__init__(self, src.shape, fn, "complex128")
+
+    def _times(self, o):
+        if isinstance(o, SpecArray):
+            raise Unsupported("product of two spectra")
+        if isinstance(o, (LArray, int, float, SNum, _np.ndarray)):
+            g = o if isinstance(o, LArray) else None
+            if g is None:
+                g = larray.from_numpy(o) if isinstance(o, _np.ndarray) else larray.full(self.shape, o)
+            if not larray._same_shape(g.shape, self.shape):
+                raise ValueError("operands could not be broadcast together with shapes %s %s" % (self.shape, g.shape))
+            return SpecArray(self.src, g if self.gain is None else self.gain * g, self.kind)
+        return NotImplemented
+
+    def __mul__(self, o): return self._times(o)
+    def __rmul__(self, o): return self._times(o)
+
+
+class FilteredArray(LArray):
+    """IFFT(FFT(src) * gain): opaque values, but remembers `src` and `gain` (the transfer function)."""
+
+    def __init__(self, spec, kind):
+        self.src, self.gain, self.kind = spec.src, spec.gain, (spec.kind, kind)
+        nd = len(spec.shape)
+        f = z3.Function("ifft_v%d_g%d" % (spec.src.version, spec.gain.version if spec.gain is not None else 0), *([z3.IntSort()] * nd + [z3.RealSort()]))
+        LArray.__init__(self, spec.shape, lambda idx: SNum(f(*[zterm(i) if core.is_sym(i) else z3.IntVal(int(i)) for i in idx])), "complex128")
+        self.is_real_part = False
+
+
+def _shift_index(i, n, s):
+    """(i + s) mod n for 0 <= i < n, 0 <= s <= n, as an if-then-else (no mod by a symbolic extent)"""
+    if isint(i) and isint(n) and isint(s):
+        return (i + s) % n
+    v = i + s
+    return larray.as_index(larray.s_ite(v < n, v, v - n)) if not isint(v) or not isint(n) else (v % n)
+
+
+def _shift(a, axes, forward):
+    if not isinstance(a, LArray):
+        return (_np.fft.fftshift if forward else _np.fft.ifftshift)(a, axes=axes)
+    axes = list(range(a.ndim)) if axes is None else ([axes] if isint(axes) else list(axes))
+    sf, ss = a.fn, a.shape
+
+    def g(idx):
+        src = []
+        for k, i in enumerate(idx):
+            if k in axes:
+                n = ss[k]
+                half = n // 2
+                # fftshift: out[i] = in[(i - n//2) mod n] = in[(i + (n - n//2)) mod n];  ifftshift: out[i] = in[(i + n//2) mod n]
+                src.append(_shift_index(i, n, (n - half) if forward else half))
+            else:
+                src.append(i)
+        return sf(tuple(src))
+    out = LArray(ss, g, a.dtype_tag)
+    if isinstance(a, SpecArray):
+        # shifting a spectrum: keep it a spectrum with shifted gain bookkeeping is not needed by the anchored code
+        out.shifted_spec = (a, forward)
+    return out
+
+
+class FFTStub(types.ModuleType):
+    def __init__(self):
+        super().__init__("numpy.fft")
+
+    def __getattr__(self, name):
+        return getattr(_np.fft, name)
+
+    @staticmethod
+    def fftn(a, *args, **k):
+        if isinstance(a, LArray):
+            return SpecArray(a, None, "fftn")
+        return _np.fft.fftn(a, *args, **k)
+
+    @staticmethod
+    def ifftn(a, *args, **k):
+        if isinstance(a, SpecArray):
+            return FilteredArray(a, "ifftn")
+        if isinstance(a, LArray):
+            raise Unsupported("ifftn of a lazy array that is not FFT(x)*gain")
+        return _np.fft.ifftn(a, *args, **k)
+
+    @staticmethod
+    def fft2(a, *args, **k):
+        if isinstance(a, LArray):
+            return SpecArray(a, None, "fft2")
+        return _np.fft.fft2(a, *args, **k)
+
+    @staticmethod
+    def ifft2(a, *args, **k):
+        if isinstance(a, SpecArray):
+            return FilteredArray(a, "ifft2")
+        if isinstance(a, LArray) and getattr(a, "shifted_spec", None) is not None:
+            raise Unsupported("ifft2 of a shifted spectrum without gain bookkeeping")
+        if isinstance(a, LArray):
+            raise Unsupported("ifft2 of a lazy array that is not FFT(x)*gain")
+        return _np.fft.ifft2(a, *args, **k)
+
+    @staticmethod
+    def fftshift(a, axes=None):
+        return _shift(a, axes, True)
+
+    @staticmethod
+    def ifftshift(a, axes=None):
+        return _shift(a, axes, False)
+
+
+FFT = FFTStub()
